@@ -211,6 +211,41 @@ func listenerScenario(id string, seed int64, lt *layoutTables, cycles int, recs 
 	return out
 }
 
+// stubEvents: the handler fed (scripted transport) from ONE reused, scribbled-over buffer; one record per delivered status
+func stubEvents(w *shardWriter, evs [][]byte, class string) {
+		ul, dl := stubClient(clientCfg{Listen: "127.0.0.1:60001"})
+		dl.events = evs
+		l := &evListener{log: &evlog{}}
+		q := make(chan os.Signal, 1)
+		done := make(chan error, 1)
+		go func() { done <- ul.Listen(l, q) }()
+		t1 := time.Now()
+		for int(atomic.LoadInt32(&l.callbacks)) < len(evs) && time.Since(t1) < 5*time.Second {
+			time.Sleep(time.Millisecond)
+		}
+		q <- os.Interrupt
+		select {
+		case <-done:
+		case <-time.After(3 * time.Second):
+		}
+		time.Sleep(5 * time.Millisecond)
+		byTag := map[uint32][]byte{}
+		for _, b := range evs {
+			if len(b) == 64 {
+				byTag[binary.LittleEndian.Uint32(b[40:44])] = b
+			}
+		}
+		l.mu.Lock()
+		for _, d := range l.delivered {
+			var later M
+			if pn, msg := guard(func() { later = projStatus(d.s) }); pn {
+				later = M{"t": "panic", "msg": msg}
+			}
+			w.put(M{"op": "Event", "b": ints(byTag[d.tag]), "status": d.at, "later": later, "rig": "S"}, class, "")
+		}
+		l.mu.Unlock()
+	}
+
 func runC10(o *opts) (*summary, error) {
 	lt, err := loadLayouts(o.extraArg("layouts"))
 	if err != nil {
@@ -225,6 +260,24 @@ func runC10(o *opts) (*summary, error) {
 	n := 40
 	if thorough {
 		n = 600
+	}
+	// zone pass (process zone with offset changes): valid events whose calendar fields sit on the zone's offset-change
+	// days - civil times that exist there - through the handler; the listener recombines date and time in its own code
+	if o.extraArg("zonepass") == "1" {
+		evs := [][]byte{}
+		k := 300
+		if thorough {
+			k = 4000
+		}
+		for i := 0; i < k; i++ {
+			m := zoneMessage(rng, lt.Event, 0x17, []byte{byte(1 + rng.Intn(255)), byte(rng.Intn(256)), byte(rng.Intn(256)), byte(rng.Intn(256))})
+			binary.LittleEndian.PutUint32(m[40:44], uint32(700000+i))
+			evs = append(evs, m)
+		}
+		stubEvents(w, evs, "event-zone")
+		s := w.close()
+		s.Distinct = s.Records
+		return s, nil
 	}
 
 	// ---- Rig L: the real listener -------------------------------------------------------------
@@ -281,39 +334,7 @@ func runC10(o *opts) (*summary, error) {
 	for i := 0; i < 600; i++ {
 		evs = append(evs, eventDatagram(rng, lt, evClasses[rng.Intn(len(evClasses))], uint32(600000+i)))
 	}
-	{
-		ul, dl := stubClient(clientCfg{Listen: "127.0.0.1:60001"})
-		dl.events = evs
-		l := &evListener{log: &evlog{}}
-		q := make(chan os.Signal, 1)
-		done := make(chan error, 1)
-		go func() { done <- ul.Listen(l, q) }()
-		t1 := time.Now()
-		for int(atomic.LoadInt32(&l.callbacks)) < len(evs) && time.Since(t1) < 5*time.Second {
-			time.Sleep(time.Millisecond)
-		}
-		q <- os.Interrupt
-		select {
-		case <-done:
-		case <-time.After(3 * time.Second):
-		}
-		time.Sleep(5 * time.Millisecond)
-		byTag := map[uint32][]byte{}
-		for _, b := range evs {
-			if len(b) == 64 {
-				byTag[binary.LittleEndian.Uint32(b[40:44])] = b
-			}
-		}
-		l.mu.Lock()
-		for _, d := range l.delivered {
-			var later M
-			if pn, msg := guard(func() { later = projStatus(d.s) }); pn {
-				later = M{"t": "panic", "msg": msg}
-			}
-			w.put(M{"op": "Event", "b": ints(byTag[d.tag]), "status": d.at, "later": later, "rig": "S"}, "event-stub", "")
-		}
-		l.mu.Unlock()
-	}
+	stubEvents(w, evs, "event-stub")
 
 	s := w.close()
 	s.Extra = map[string]any{"listener_trace": name, "scenarios": nscen, "sample": sample}
